@@ -1,9 +1,10 @@
-use std::{any::Any, cell::RefCell, rc::Rc};
+use std::{any::Any, cell::RefCell, future::Future, rc::Rc};
 
 use ahash::HashMap;
 use bitvec::vec::BitVec;
 use elsa::FrozenMap;
 use event_listener::Event;
+use futures::{FutureExt, StreamExt, stream::FuturesUnordered};
 
 use crate::{
     Candidates, Dependencies, DependencyProvider, HintDependenciesAvailable, NameId, Requirement,
@@ -14,6 +15,37 @@ use crate::{
         id::{CandidatesId, DependenciesId},
     },
 };
+
+/// Awaits all futures concurrently and returns their results in order, or the first error as
+/// soon as any of them fails.
+///
+/// `futures::future::try_join_all` only does the latter for up to 30 futures with a known
+/// upper bound; beyond that it drives them through an ordered stream which holds back an
+/// error until all earlier futures have completed. A cancellation observed on behalf of one
+/// version set of a union must not wait for the requests of the other version sets.
+pub(crate) async fn try_join_all_fail_fast<T, E, F>(
+    futures: impl IntoIterator<Item = F>,
+) -> Result<Vec<T>, E>
+where
+    F: Future<Output = Result<T, E>>,
+{
+    let mut pending: FuturesUnordered<_> = futures
+        .into_iter()
+        .enumerate()
+        .map(|(index, future)| future.map(move |result| result.map(|value| (index, value))))
+        .collect();
+    let mut results: Vec<Option<T>> = std::iter::repeat_with(|| None)
+        .take(pending.len())
+        .collect();
+    while let Some(result) = pending.next().await {
+        let (index, value) = result?;
+        results[index] = Some(value);
+    }
+    Ok(results
+        .into_iter()
+        .map(|value| value.expect("all futures have completed"))
+        .collect())
+}
 
 /// Keeps a cache of previously computed and/or requested information about
 /// solvables and version sets.
@@ -282,7 +314,7 @@ impl<D: DependencyProvider> SolverCache<D> {
                 match self.requirement_to_sorted_candidates.get(&requirement) {
                     Some(candidates) => Ok(candidates),
                     None => {
-                        let sorted_candidates = futures::future::try_join_all(
+                        let sorted_candidates = try_join_all_fail_fast(
                             self.provider()
                                 .version_sets_in_union(version_set_union_id)
                                 .map(|version_set_id| {
